@@ -440,6 +440,16 @@ func main() {
 	}
 
 	// 5. evidence
+	probes := map[string]int64{}
+	var reached []string
+	for k, v := range merged.Probes {
+		if strings.HasPrefix(k, "site ") {
+			reached = append(reached, fmt.Sprintf("%s x%d", strings.TrimPrefix(k, "site "), v))
+		} else {
+			probes[k] = v
+		}
+	}
+	sort.Strings(reached)
 	wall := time.Since(start).Seconds()
 	distinct := len(ids)
 	cov := map[string]any{
@@ -455,7 +465,8 @@ func main() {
 		"runs_per_hour":          int64(float64(merged.Cases) / (wall - buildS + 0.001) * 3600),
 		"seeds":                  fmt.Sprintf("VERIF_SEED=%d, %d worker processes, case seed = splitmix(seed, shard, i)", seed, njobs),
 		"faults_fired":           merged.Faults,
-		"probes":                 merged.Probes,
+		"probes":                 probes,
+		"sites_reached":          map[string]any{"reached": len(reached), "of_instrumented": len(rep.Sites), "note": "instrumented scheduling and file-system points of package desync (file:line) hit at least once in this run; the remainder belongs to code this property does not exercise", "reached_sites": reached},
 		"config_classes":         len(merged.Classes),
 		"outcomes":               merged.Outcomes,
 		"instrumentation":        map[string]any{"files": rep.Files, "yield_sites": rep.YieldSites, "io_sites": rep.IOSites, "uncontrolled_selects": rep.Uncontrolled},
